@@ -80,7 +80,9 @@ CLAIMS = {
     "C17": dict(
         text="No-timeout blocking variants satisfy the async relations with blocking_send/blocking_recv and the blocking_* labels; dispatch sends Some(d) to the timeout implementation with d and None to the "
              "no-timeout one; deprecated aliases equal blocking_*(msg, None) whatever timeout they get.",
-        note="blocking_*_with_timeout_impl (std::thread::spawn, nested runtime, std mpsc) is NOT under contract: deadline behaviour and callability inside a runtime are unverified."),
+        note="blocking_*_with_timeout_impl (std::thread::spawn, nested runtime, std mpsc) is NOT under contract: a BOUNDED real-time scenario "
+             "(replay: blocking_timeout, blocking_api; full mailbox, stopped actor, call from inside a runtime) stands in for them on every run, labelled bounded in the evidence and not counted as proved.",
+        technique="contract-based deductive verification (Verus) of dispatch, no-timeout variants and deprecated aliases; bounded real-time scenarios on the real crate stand in for the two thread-based timeout implementations"),
     "C18": dict(
         text="All contracts of the feature-independent properties are re-discharged on the text extracted under each feature subset (quick: 6 subsets, thorough: all 16): the same relations and the same "
              "monitor postcondition hold, i.e. feature-gated code only adds effects the relations do not constrain.",
